@@ -35,33 +35,31 @@
      bytes produced are the specified content, and the bytes consumed are exactly that frame.
      Any capacity, NULL destination, stableDst; both the direct path and the staged-header
      path (inputs shorter than maxFHSize); direct decoding and decoding through tmpOut.
-   - C08_chunking_sound_partial: "never falsely succeeds" for RESUMED calls.  From a context
-     at the start of a frame, for ANY split of the input into pieces and ANY capacities (>= 0),
-     with the documented protocol (what a call does not consume is offered again): if the
-     sequence of calls reports completion, then Spec.frame_decode accepts the input, the
-     concatenation of the outputs of all calls is the specified content and the total consumed
-     is the length of the frame (or the bytes consumed are a skippable frame and nothing was
-     produced).  Proof: a simulation between the staged state (dStage, the prefixes held in
-     header[] / tmpIn[], the not yet flushed part of tmpOut, running hashes, history, remaining
-     size) and a position in frame_decode's parse of the whole frame (Proofs/FrameDChunk.v,
-     invariant CInv: "what was consumed so far, followed by any g that the rest of the
-     specification accepts from here, is accepted with that result"), stage by stage.
-   - C08_chunking_complete_partial / C08_chunking_reaches_partial /
-     C08_chunking_independent_noskip_partial: the converse, with skipChecksums off.  On an input
-     that Spec.frame_decode accepts (all checksums verified), from a context at the start of a
-     frame, whatever the pieces and capacities: NO call fails; when the calls end the verdict is
-     the specification's (content, frame length); and they do end - with pieces of >= 1 byte and
-     capacities >= 1, |input| + |content| + 1 calls always suffice (each call that does not end
-     the frame consumes or produces a byte; when the input is exhausted only the end of the
-     frame can be left).  Hence verdict and content are independent of the chunking.
-     The simulation is two-way (CInv's continuation clause is an equivalence), every error
-     return of the stage machine is justified by "the specification rejects every
-     continuation", hints are shown >= 0.
-   Partial (see the _full_statement below): the converse is proved for skipChecksums OFF only;
-     with skipChecksums ON (where the decoder still verifies the checksum of compressed blocks,
-     C08_example_skip_asymmetry) only the soundness half is proved at model level; the
-     harness checks the real code under both settings (same verdict under every chunking,
-     complete => content equals the extracted Spec.frame_decode). *)
+   - C08_chunking_sound: "never falsely succeeds" for RESUMED calls.  From a context at the
+     start of a frame, for ANY split of the input into pieces and ANY capacities (>= 0), with the
+     documented protocol (what a call does not consume is offered again): if the sequence of
+     calls reports completion, then Spec.frame_decode accepts the input (checksums modulo
+     skipChecksums as Spec's skip flag), the concatenation of the outputs of all calls is the
+     specified content and the total consumed is the length of the frame (or the bytes consumed
+     are a skippable frame and nothing was produced).
+   - C08_chunking_complete / C08_chunking_reaches / C08_chunking_independent: the converse.  On an
+     input that Spec.frame_decode accepts with every checksum verified, from a context at the
+     start of a frame, whatever the pieces, the capacities and skipChecksums: NO call fails; when
+     the calls end the verdict is the specification's (content, frame length); and they do end -
+     with pieces of >= 1 byte and capacities >= 1, |input| + |content| + 1 calls always suffice
+     (each call that does not end the frame consumes or produces a byte; when the input is
+     exhausted only the end of the frame can be left).  Hence verdict and content are
+     independent of the chunking: C08_chunking_independent proves the statement
+     C08_chunking_independent_full_statement that earlier rounds left open.
+     Proof (Proofs/FrameDChunk.v): a two-way simulation between the staged state (dStage, the
+     prefixes held in header[] / tmpIn[], the not yet flushed part of tmpOut, running hashes,
+     history, remaining size) and a position in frame_decode's parse of the whole frame.
+     Invariant CInv p O s, p = bytes consumed, O = bytes produced since the start of the frame,
+     with a continuation clause Kc p E: "p followed by any g with E skip g res is accepted by the
+     specification with result res" and "if p ++ g is accepted with all checksums verified then
+     E false g res"; proved stage by stage; every error return of the stage machine is
+     justified by "the specification rejects every continuation"; hints are shown >= 0.
+     The block decoder stays a parameter (the same function in model and specification). *)
 From Coq Require Import ZArith List Lia Bool.
 From LZ4V Require Import Spec.BlockSpec Spec.XXH32 Spec.FrameSpec Gen.Consts Model.FrameD.
 From LZ4V Require Import Proofs.FrameDHeader Proofs.FrameDProofs Proofs.FrameDSound Proofs.FrameDChunk.
@@ -141,7 +139,7 @@ Print Assumptions C08_complete_sound_oneshot_usingDict.
 
 (* soundness under chunking ([drive] : Proofs/FrameDChunk.v - the input offered in pieces of sizes
    [ns] with capacities [caps], what a call does not consume is offered again) *)
-Theorem C08_chunking_sound_partial : forall bdec o dict k s data ns caps content consumed,
+Theorem C08_chunking_sound : forall bdec o dict k s data ns caps content consumed,
   wf s -> d_stage s = GetFrameHeader -> d_remaining s = 0 -> d_hist s = dict -> d_skip s = false ->
   bytes_ok data = true -> Forall (fun c => 0 <= c) caps ->
   drive bdec o k s data ns caps [] 0 = VComplete content consumed ->
@@ -149,12 +147,11 @@ Theorem C08_chunking_sound_partial : forall bdec o dict k s data ns caps content
   (exists rest, frame_decode bdec (o_skip o) dict data = Some (content, rest) /\ consumed = zlen data - zlen rest)
   \/ (content = [] /\ 4 <= consumed <= zlen data /\ Z.land (rd32 data) SKIP_MASK = FD_MAGIC_SKIPPABLE_START).
 Proof. exact chunked_sound. Qed.
-Print Assumptions C08_chunking_sound_partial.
+Print Assumptions C08_chunking_sound.
 
-(* completeness under chunking, skipChecksums off: no call fails on a valid frame, and when the
-   calls end the verdict is the specification's *)
-Theorem C08_chunking_complete_partial : forall bdec o dict k s data ns caps content rest,
-  o_skip o = false ->
+(* completeness under chunking: no call fails on a valid frame (all checksums right), whatever
+   skipChecksums, and when the calls end the verdict is the specification's *)
+Theorem C08_chunking_complete : forall bdec o dict k s data ns caps content rest,
   wf s -> d_stage s = GetFrameHeader -> d_remaining s = 0 -> d_hist s = dict -> d_skip s = false ->
   bytes_ok data = true -> Forall (fun c => 0 <= c) caps ->
   frame_decode bdec false dict data = Some (content, rest) ->
@@ -162,11 +159,11 @@ Theorem C08_chunking_complete_partial : forall bdec o dict k s data ns caps cont
   (drive bdec o k s data ns caps [] 0 <> VMore ->
    drive bdec o k s data ns caps [] 0 = VComplete content (zlen data - zlen rest)).
 Proof. exact chunked_complete. Qed.
-Print Assumptions C08_chunking_complete_partial.
+Print Assumptions C08_chunking_complete.
 
 (* ... and they do end: any pieces >= 1 byte, any capacities >= 1, |input| + |content| + 1 calls *)
-Theorem C08_chunking_reaches_partial : forall bdec o dict s data ns caps content rest,
-  o_skip o = false -> o_dstnull o = false ->
+Theorem C08_chunking_reaches : forall bdec o dict s data ns caps content rest,
+  o_dstnull o = false ->
   wf s -> d_stage s = GetFrameHeader -> d_remaining s = 0 -> d_hist s = dict -> d_skip s = false ->
   bytes_ok data = true -> Forall (fun n => 1 <= n) ns -> Forall (fun c => 1 <= c) caps ->
   frame_decode bdec false dict data = Some (content, rest) ->
@@ -174,20 +171,9 @@ Theorem C08_chunking_reaches_partial : forall bdec o dict s data ns caps content
   (K <= length ns)%nat -> (K <= length caps)%nat ->
   drive bdec o K s data ns caps [] 0 = VComplete content (zlen data - zlen rest).
 Proof. exact chunked_reaches. Qed.
-Print Assumptions C08_chunking_reaches_partial.
+Print Assumptions C08_chunking_reaches.
 
-(* the full statement below, for skipChecksums off *)
-Theorem C08_chunking_independent_noskip_partial : forall bdec stable dstnull data ns caps content rest,
-  bytes_ok data = true ->
-  Forall (fun n => 1 <= n) ns -> Forall (fun c => 1 <= c) caps ->
-  frame_decode bdec false [] data = Some (content, rest) ->
-  (exists k, drive bdec (mkO stable false dstnull) k dctx_init data ns caps [] 0 <> VMore) ->
-  exists k, drive bdec (mkO stable false dstnull) k dctx_init data ns caps [] 0
-            = VComplete content (zlen data - zlen rest).
-Proof. exact chunked_independent_noskip. Qed.
-Print Assumptions C08_chunking_independent_noskip_partial.
-
-(* ---- the part that is not proved at model level: the same with skipChecksums on ---- *)
+(* ---- the statement that earlier rounds left open ---- *)
 (* (the frame is valid with ALL checksums verified: under skipChecksums the code - and the model -
    still verifies the checksum of compressed blocks, see C08_example_skip_asymmetry) *)
 Definition C08_chunking_independent_full_statement : Prop :=
@@ -199,6 +185,9 @@ Definition C08_chunking_independent_full_statement : Prop :=
     (exists k, drive bdec (mkO false skip false) k dctx_init data ns caps [] 0 <> VMore) ->
     exists k, drive bdec (mkO false skip false) k dctx_init data ns caps [] 0
               = VComplete content (zlen data - zlen rest).
+Theorem C08_chunking_independent : C08_chunking_independent_full_statement.
+Proof. exact chunked_independent. Qed.
+Print Assumptions C08_chunking_independent.
 
 (* ---- the hypotheses are satisfiable, on non-trivial states ---- *)
 (* a frame with content size and content checksum, one uncompressed block "abc", fed in two
@@ -230,7 +219,8 @@ Example C08_example_chunked :
   /\ frame_decode spec_decode false [] data = Some ([97; 98; 99], [9; 9]).
 Proof. vm_compute. split; reflexivity. Qed.
 
-(* the completeness theorems apply: a valid frame, 1-byte pieces, capacity 1: 36 calls suffice *)
+(* the completeness theorems apply: a valid frame, 1-byte pieces, capacity 1: 36 calls suffice
+   (also with skipChecksums on) *)
 Example C08_example_reaches :
   let hdr := [4; 34; 77; 24; 108; 64; 3; 0; 0; 0; 0; 0; 0; 0; 41] in
   let body := [3; 0; 0; 128; 97; 98; 99; 0; 0; 0; 0] in
@@ -238,7 +228,8 @@ Example C08_example_reaches :
   let data := hdr ++ body ++ crc ++ [9; 9] in
   frame_decode spec_decode false [] data = Some ([97; 98; 99], [9; 9]) /\
   Z.to_nat (zlen data + zlen [97; 98; 99] + 1) = 36%nat /\
-  drive spec_decode (mkO false false false) 36 dctx_init data (repeat 1 36) (repeat 1 36) [] 0 = VComplete [97; 98; 99] 30.
+  drive spec_decode (mkO false false false) 36 dctx_init data (repeat 1 36) (repeat 1 36) [] 0 = VComplete [97; 98; 99] 30 /\
+  drive spec_decode (mkO false true false) 36 dctx_init data (repeat 1 36) (repeat 1 36) [] 0 = VComplete [97; 98; 99] 30.
 Proof. vm_compute. repeat split; reflexivity. Qed.
 
 Example C08_example_header :
